@@ -18,7 +18,7 @@ def run(ctx):
     th = ctx.tier == "thorough"
     exe = exes["h_merger"]
     ctx.fan(exe, "c05l", 8000 if th else 300, timeout=120)
-    ctx.fan(exe, "c05x", 1500 if th else 64, chunk=1 if not th else None, timeout=600)
+    ctx.fan(exe, "c05x", 1500 if th else 56, chunk=1 if not th else None, timeout=600)
     ctx.fan(exe, "c05h", 30000 if th else 500, timeout=120)
     s = ctx.stats
     lookups = s.get("lookups.get", 0) + s.get("lookups.get_prefix", 0) + s.get("lookups.get_range", 0)
